@@ -67,6 +67,16 @@ class SIV:
         return f"SIV<{self.dtype}>({self.v})"
 
     def _cmp(self, o, f):
+        if isinstance(o, (builtins.float, real_np.floating)):
+            # NumPy compares an integer array with a float scalar in float64: a 64-bit integer is first rounded to
+            # the nearest double (exact below 2**53); narrower integers are exact
+            from fractions import Fraction
+            if o != o or o in (builtins.float("inf"), -builtins.float("inf")):
+                raise OutsideModel("comparison of an integer element with a non-finite float")
+            if self.dtype.itemsize >= 8:
+                return f(SDy.rounded(self.v, 0, 64, real_np.float64), SDy.of(builtins.float(o)))
+            q = Fraction(builtins.float(o))
+            return SBool(f(self.v * q.denominator, q.numerator))
         ov = o.v if isinstance(o, SIV) else builtins.int(o)
         return SBool(f(self.v, ov))
 
